@@ -346,6 +346,15 @@ func TestC16(t *testing.T) {
 			w.Build()
 			src := sources[round%3]
 			m, raw := c16Message(t, w, src)
+			// every third round a second, different quote (other chain bytes) is verified by some of the goroutines
+			var w2 *gen.World
+			var m2 *pb.QuoteV4
+			var raw2 []byte
+			if round%3 == 1 {
+				w2 = gen.NewWorld(gen.NewPKI(gen.PKISpec{Seed: gen.PKISeeds[(round+1)%4]}), gen.NewStream(gen.ProcSeed()*977+uint64(round)+500000, "c16race2"))
+				w2.Build()
+				m2, raw2 = c16Message(t, w2, sources[(round+1)%3])
+			}
 			n := 2 + s.Intn(15)
 			mix := make([]c16Call, n)
 			solo := make([]string, n)
@@ -354,7 +363,21 @@ func TestC16(t *testing.T) {
 				if i < 2 {
 					mix[i] = c16Calls[s.Intn(3)] // at least two verifications
 				}
-				solo[i] = mix[i].run(w, m, raw).Short()
+			}
+			useSecond := func(i int) bool { return w2 != nil && i%2 == 1 }
+			runOne := func(i int) string {
+				if useSecond(i) {
+					return mix[i].run(w2, m2, raw2).Short()
+				}
+				return mix[i].run(w, m, raw).Short()
+			}
+			// in half of the rounds the solo verdicts are taken AFTER the concurrent phase, so that the very first
+			// use of the library on this quote happens concurrently
+			soloFirst := round%2 == 0
+			if soloFirst {
+				for i := range mix {
+					solo[i] = runOne(i)
+				}
 			}
 			var regions []memRegion
 			messageRegions("quote.", m.ProtoReflect(), &regions)
@@ -367,12 +390,17 @@ func TestC16(t *testing.T) {
 					defer wg.Done()
 					<-start
 					for rep := 0; rep < 3; rep++ {
-						got[i] = mix[i].run(w, m, raw).Short()
+						got[i] = runOne(i)
 					}
 				}(i)
 			}
 			close(start)
 			wg.Wait()
+			if !soloFirst {
+				for i := range mix {
+					solo[i] = runOne(i)
+				}
+			}
 			gen.EvalN(n * 3)
 			var names []string
 			for _, c := range mix {
